@@ -59,6 +59,8 @@ class Builder:
         if k in ("Slice", "Embed"):
             idx = tuple(slice(st, sp_, sz) for st, sp_, sz in zip(a[1], a[2], a[3]))
             return (L.Slice if k == "Slice" else L.Embed)(list(a[0]), idx)
+        if k == "FiniteDifference":
+            return L.FiniteDifference(list(a[0]), axes=_seq_or_none(a[1]))
         if k == "A2B":
             return L.ArrayToBlocks(list(a[0]), list(a[1]), list(a[2]))
         if k == "B2A":
